@@ -7,8 +7,9 @@ use serde::{Deserialize, Serialize};
 
 #[derive(Debug, Clone, Serialize, Deserialize)]
 enum WCase {
-    /// all words with exactly `pop` set bits (complemented when `inv`)
-    Pop { pop: u32, inv: bool },
+    /// all words with exactly `pop` set bits (complemented when `inv`); `top` = position of the highest
+    /// set bit (splits the work), None = all
+    Pop { pop: u32, inv: bool, #[serde(default)] top: Option<u32> },
     /// all words whose bytes come from an alphabet, first byte(s) fixed to split the work
     Bytes { alpha: Vec<u8>, first: u8, second: Option<u8> },
     /// byte position p: every byte value on 4 backgrounds
@@ -120,16 +121,30 @@ impl Case for WCase {
     fn run(&self, ctx: &mut Ctx) {
         ctx.set_ty("utils");
         match self {
-            WCase::Pop { pop, inv } => {
-                // Gosper's hack over all 64-bit words with `pop` bits
-                ctx.note_input(&(pop, inv), true);
+            WCase::Pop { pop, inv, top } => {
+                // Gosper's hack over all words with the given number of bits below `top` (plus bit `top`)
+                ctx.note_input(&(pop, inv, top), true);
                 if *pop == 0 {
                     check_word(ctx, if *inv { u64::MAX } else { 0 });
                     return;
                 }
-                let mut x: u64 = (1u64 << pop) - 1;
+                let (low_bits, width, fixed) = match top {
+                    Some(t) => (*pop - 1, *t, 1u64 << *t),
+                    None => (*pop, 64, 0),
+                };
+                if low_bits > width {
+                    return;
+                }
+                if low_bits == 0 {
+                    check_word(ctx, if *inv { !fixed } else { fixed });
+                    ctx.count("words");
+                    return;
+                }
+                let limit: u128 = 1u128 << width;
+                let mut x: u64 = if low_bits == 64 { u64::MAX } else { (1u64 << low_bits) - 1 };
                 loop {
-                    check_word(ctx, if *inv { !x } else { x });
+                    let w = x | fixed;
+                    check_word(ctx, if *inv { !w } else { w });
                     ctx.count("words");
                     let c = x & x.wrapping_neg();
                     let r = x.wrapping_add(c);
@@ -137,7 +152,7 @@ impl Case for WCase {
                         break;
                     }
                     let next = (((r ^ x) >> 2) / c) | r;
-                    if next < x {
+                    if next < x || (next as u128) >= limit {
                         break;
                     }
                     x = next;
@@ -323,16 +338,33 @@ impl Case for WCase {
         }
     }
     fn weight(&self) -> u64 {
-        10_000_000
+        match self {
+            // number of words of the case times 64 selects
+            WCase::Pop { pop, top: Some(t), .. } => {
+                let mut c: u128 = 1;
+                for j in 0..(*pop - 1) as u128 {
+                    c = c * (*t as u128 - j) / (j + 1);
+                }
+                (c as u64).saturating_mul(64).max(1000)
+            }
+            WCase::Bytes { alpha, .. } => (alpha.len() as u64).pow(6) * 64,
+            _ => 10_000_000,
+        }
     }
 }
 
 fn enumerate(args: &Args) -> Vec<WCase> {
     let th = args.tier == "thorough";
     let mut v = Vec::new();
-    for pop in 0..=(if th { 5 } else { 4 }) {
+    for pop in 0..=(if th { 6 } else { 4 }) {
         for inv in [false, true] {
-            v.push(WCase::Pop { pop, inv });
+            if pop < 3 {
+                v.push(WCase::Pop { pop, inv, top: None });
+            } else {
+                for top in (pop - 1)..64 {
+                    v.push(WCase::Pop { pop, inv, top: Some(top) });
+                }
+            }
         }
     }
     if th {
